@@ -375,7 +375,7 @@ OwnerNext(t) ==
              /\ ev' = E1 /\ nact' = a /\ task' = T1
              /\ cur' = t
              /\ o' = Obs(Line("HEnter") @@ [act |-> a, b |-> b, e |-> e, h |-> h.id, byk |-> TaskLabelKind(t), bya |-> IF FrameOwner(t)[1] = "h" THEN FrameOwner(t)[2] ELSE 0,
-                                           rb |-> Last(ev[e].path), sync |-> TRUE, tmo |-> -1], E1, nev, hist, q)
+                                           rb |-> b, sync |-> TRUE, tmo |-> -1], E1, nev, hist, q)
           /\ UNCHANGED <<q, unf, hist, running>>
      ELSE \* async scenario handler: result started, handler task created with a copy of the context, wait_for suspends
           /\ nact < MaxAct
@@ -633,7 +633,7 @@ OwnerEpilogue(t) ==
 \* ------------------------------------------------------------------------
 HEnterLine(a) == LET x == task[HT(a)] IN
   Line("HEnter") @@ [act |-> a, b |-> x.b, e |-> x.e, h |-> x.h, byk |-> TaskLabelKind(x.owner), bya |-> IF FrameOwner(x.owner)[1] = "h" THEN FrameOwner(x.owner)[2] ELSE 0,
-                     rb |-> Last(ev[x.e].path), sync |-> FALSE, tmo |-> -1]       \* event.event_bus = last bus of the path (finding F9)
+                     rb |-> x.b, sync |-> FALSE, tmo |-> -1]       \* event.event_bus = the bus running the handler (fix: F9)
 
 HStart(a) ==
   /\ cur = NoTask /\ a <= nact /\ task[HT(a)].pc = "new" /\ FirstBorn(HT(a))
